@@ -127,6 +127,10 @@ def main():
     if not ok_model:
         print("model build failed:\n" + mlog)
 
+    if not a.replay:
+        import glob
+        for old in glob.glob(os.path.join(VERIF, "replays", f"{prop}-*.json")):
+            os.remove(old)
     import props  # harness/props.py (imports biobalm from /repo)
     runner = props.REGISTRY[prop]
     if a.replay:
